@@ -211,10 +211,10 @@ def run(chk: core.Check) -> None:
                     chk.fail({**case, "exception": repr(e), "clause": "raises"}, f"add_page_break_style raised {type(e).__name__}")
                     break
                 s2 = snapshot(doc)
-                n = sum(1 for c in CONTAINERS for it in (s2[c] or []) if it[1] == "paragraph" and it[2] == "odfdopagebreak")
+                n = sum(1 for it in (s2["styles:styles"] or []) if it[1] == "paragraph" and it[2] == "odfdopagebreak")
                 chk.case((name, repr(hist)), nontrivial=True)
                 if n != 1:
-                    chk.fail({**case, "clause": "unique", "count": n}, "add_page_break_style called twice leaves the page break style not exactly once")
+                    chk.fail({**case, "clause": "unique", "count": n}, "add_page_break_style called twice leaves the page break style not exactly once among the common styles")
                     break
             elif r < 0.88:
                 if not merge_step(chk, rng, doc, name, hist):
